@@ -10,7 +10,7 @@ if _sync is not None:
     raise RuntimeError('frozen network specification out of sync: ' + _sync)
 
 PROP = 'C04'
-COQ_FILES = ['Extract/C04.v', 'Properties/C04.v']
+COQ_FILES = ['Extract/C04.v', 'Proofs/KeyPointMarker.v', 'Properties/C04.v']
 DRIVER = 'c04'
 IMPL = 'harness/impl/c04_impl.py'
 ALLOWED_AXIOMS = []
@@ -34,8 +34,14 @@ ASSUMPTIONS = [
     'theorem that both encodings of a private key describe d*G (the group law of the executable curve is not proved); '
     'SHA-256 / RIPEMD-160 are the executable Gallina transcriptions (validated against hashlib in every run, not proved '
     'equal to FIPS 180-4); ec_point (fastecdsa) = textbook double-and-add is validated by the correspondence only',
-    'not modelled: WIF / BIP38 / extended-key / mnemonic inputs and strings that reach the base58 recogniser of '
+    'not modelled in Gallina: WIF / BIP38 (oracle only, request route) / extended-key / mnemonic inputs and strings that reach the base58 recogniser of '
     'get_key_format (C12), the is_private and password arguments, the network_overrides argument of Address',
+    'request route = Key / HDKey(<WIF text>) and Key / HDKey(<BIP38 text>, password=) (HDKey with witness_type legacy on the BIP38 '
+    'route: the default refuses every BIP38 text), judged by the independent oracle only: WIF decoded by payload length (Base58Check), '
+    'BIP38 strings from the frozen corpus corpus/C04/bip38.json (generated once by the harness reference encryptor: hashlib.scrypt + AES, '
+    'which reproduces the published BIP38 vectors; sha256 of the file pinned; one row per run re-derived with the reference decryptor); '
+    'secret, public encodings, point, address() and address(p2pkh, base58) compared with d*G of the scalar the text carries.  Missing '
+    'theorem: lib_key_import over a Gallina Base58Check / WIF decoder (wif_import_is_scalar_import)',
     'outside the Gallina model, judged by the independent property-level oracle only (the driver answers OOS): request addrx = '
     'argument combinations of Address(...) (witness_type / script_type / encoding alone, together, contradicting; prefix=, witver, '
     'compressed, str / bytes / positional data, hashed_data), Key.address / address_uncompressed / address_obj, HDKey(witness_type=).address, '
@@ -56,7 +62,10 @@ RULE = ('boundary scalars (1, 2, 3, n-1, n-2, (n+-1)/2, 2^k, 2^k-1, sparse), the
         'witver / compressed / data form / hashed_data; Key.address and HDKey(witness_type).address with prefix, address_uncompressed, '
         'address_obj; Address.parse of every standard form on every network); histories on one key object (sess: address, network '
         'change, address again for every network x witness type; random call sequences of 2..8 steps); '
-        'a case is non-trivial when the implementation returns a key/address; distinct by request')
+        'special key material (last byte 01 / 0101 / 0100, first byte 00 / 01 / 80, leading zero bytes, 1, n-1, n-0x40, around '
+        '2^248) on every import route: int / 32 bytes / 33 bytes with marker / hexadecimal (model), WIF compressed / uncompressed '
+        'on several networks and BIP38 compressed / uncompressed from the frozen corpus corpus/C04/bip38.json (route: independent '
+        'oracle); a case is non-trivial when the implementation returns a key/address; distinct by request')
 
 # ---------------------------------------------------------------- independent oracle: curve (SEC 1 / SEC 2)
 P = 2 ** 256 - 2 ** 32 - 977
@@ -271,6 +280,290 @@ def hexlike(b):
         return True
     except (ValueError, UnicodeDecodeError):
         return False
+
+
+# ---------------------------------------------------------------- independent oracle: text routes of a private key
+# WIF (Base58Check of version || 32-byte secret [|| 01 = "the public key is compressed"]) and BIP38 without EC multiplication
+# (prefix 0142, flag byte c0 / e0, scrypt N=16384 r=8 p=8 over the NFC UTF-8 passphrase salted with the first four bytes of
+# SHA256(SHA256(P2PKH address)), AES-256-ECB of secret XOR derivedhalf1), written from the Bitcoin wiki / BIP38 text.
+# scrypt is hashlib's (OpenSSL), AES-256 is the FIPS-197 transcription below: nothing here is read from /repo.
+CORPUS_BIP38 = os.path.join(os.path.dirname(os.path.dirname(os.path.dirname(os.path.abspath(__file__)))), 'corpus', 'C04', 'bip38.json')
+CORPUS_BIP38_SHA256 = '0d8846d2dda83a40a47c67f746ce4e6687350210552ab4446b5f3498edcde8b1'
+
+
+# AES-256 single-block cipher (FIPS-197), used in ECB mode on the two 16-byte halves; validated on FIPS-197 C.3 at load
+def _gmul(a, b):
+    r = 0
+    while b:
+        if b & 1:
+            r ^= a
+        a = (a << 1) ^ (0x11b if a & 0x80 else 0)
+        b >>= 1
+    return r
+
+
+def _aes_tables():
+    inv = [0] * 256
+    for a in range(1, 256):
+        for b in range(1, 256):
+            if _gmul(a, b) == 1:
+                inv[a] = b
+                break
+    sb = []
+    for a in range(256):
+        x = inv[a]
+        y = x
+        for _ in range(4):
+            x = ((x << 1) | (x >> 7)) & 0xff
+            y ^= x
+        sb.append(y ^ 0x63)
+    isb = [0] * 256
+    for i, v in enumerate(sb):
+        isb[v] = i
+    return sb, isb
+
+
+_SBOX, _ISBOX = _aes_tables()
+
+
+def _aes_round_keys(key):
+    nk = len(key) // 4
+    w = [list(key[4 * i:4 * i + 4]) for i in range(nk)]
+    rcon = 1
+    for i in range(nk, 4 * (nk + 7)):
+        t = list(w[i - 1])
+        if i % nk == 0:
+            t = [_SBOX[t[1]] ^ rcon, _SBOX[t[2]], _SBOX[t[3]], _SBOX[t[0]]]
+            rcon = _gmul(rcon, 2)
+        elif nk > 6 and i % nk == 4:
+            t = [_SBOX[x] for x in t]
+        w.append([a ^ b for a, b in zip(w[i - nk], t)])
+    return [sum(w[4 * r:4 * r + 4], []) for r in range(nk + 7)]
+
+
+def _mix(st, m):
+    out = []
+    for c in range(4):
+        col = st[4 * c:4 * c + 4]
+        for r in range(4):
+            out.append(_gmul(col[0], m[(0 - r) % 4]) ^ _gmul(col[1], m[(1 - r) % 4]) ^ _gmul(col[2], m[(2 - r) % 4]) ^ _gmul(col[3], m[(3 - r) % 4]))
+    return out
+
+
+def aes_encrypt_block(key, block):
+    rk = _aes_round_keys(key)
+    st = [a ^ b for a, b in zip(block, rk[0])]
+    for r in range(1, len(rk)):
+        st = [_SBOX[x] for x in st]
+        st = [st[(4 * c + r_ + 4 * r_) % 16] for c in range(4) for r_ in range(4)]          # ShiftRows (column-major state)
+        if r != len(rk) - 1:
+            st = _mix(st, [2, 3, 1, 1])
+        st = [a ^ b for a, b in zip(st, rk[r])]
+    return bytes(st)
+
+
+def aes_decrypt_block(key, block):
+    rk = _aes_round_keys(key)
+    st = [a ^ b for a, b in zip(block, rk[-1])]
+    for r in range(len(rk) - 2, -1, -1):
+        st = [st[(4 * c + r_ - 4 * r_) % 16] for c in range(4) for r_ in range(4)]          # InvShiftRows
+        st = [_ISBOX[x] for x in st]
+        st = [a ^ b for a, b in zip(st, rk[r])]
+        if r != 0:
+            st = _mix(st, [14, 11, 13, 9])
+    return bytes(st)
+
+
+_k, _p, _c = bytes(range(32)), bytes.fromhex('00112233445566778899aabbccddeeff'), bytes.fromhex('8ea2b7ca516745bfeafc49904b496089')
+if aes_encrypt_block(_k, _p) != _c or aes_decrypt_block(_k, _c) != _p:
+    raise RuntimeError('AES-256 reference does not reproduce FIPS-197 C.3')
+
+
+def b58decode_check(s):
+    """payload of a Base58Check string, None when the alphabet or the checksum is wrong"""
+    n = 0
+    for ch in s:
+        i = B58.find(ch)
+        if i < 0:
+            return None
+        n = n * 58 + i
+    raw = n.to_bytes((n.bit_length() + 7) // 8, 'big')
+    raw = b'\0' * (len(s) - len(s.lstrip('1'))) + raw
+    if len(raw) < 5 or sha256(sha256(raw[:-4]))[:4] != raw[-4:]:
+        return None
+    return raw[:-4]
+
+
+def wif_encode(d, comp, ver):
+    return b58check(ver + d.to_bytes(32, 'big') + (b'\x01' if comp else b''))
+
+
+def wif_decode(s):
+    """-> (version byte, d, compressed) by the length of the payload ALONE (33 bytes: uncompressed, 34 bytes ending in 01:
+    compressed; a secret that itself ends in 01 is not a marker), or None"""
+    raw = b58decode_check(s)
+    if raw is None:
+        return None
+    if len(raw) == 33:
+        return raw[:1], int.from_bytes(raw[1:], 'big'), False
+    if len(raw) == 34 and raw[-1] == 1:
+        return raw[:1], int.from_bytes(raw[1:33], 'big'), True
+    return None
+
+
+def _bip38_halves(d, comp, pw=None):
+    """salt: first four bytes of the double SHA-256 of the key's mainnet P2PKH address"""
+    pt = ec_mul(d)
+    addr = b58check(b'\x00' + h160(ser_c(pt) if comp else ser_u(pt)))
+    ah = sha256(sha256(addr.encode('ascii')))[:4]
+    return ah
+
+
+def _bip38_kdf(pw, salt):
+    import unicodedata
+    return hashlib.scrypt(unicodedata.normalize('NFC', pw).encode('utf-8'), salt=salt, n=16384, r=8, p=8, maxmem=64 << 20, dklen=64)
+
+
+def bip38_ref_encrypt(d, comp, pw):
+    ah = _bip38_halves(d, comp, pw)
+    k = _bip38_kdf(pw, ah)
+    m = (d ^ int.from_bytes(k[:32], 'big')).to_bytes(32, 'big')
+    return b58check(b'\x01\x42' + (b'\xe0' if comp else b'\xc0') + ah + aes_encrypt_block(k[32:], m[:16]) + aes_encrypt_block(k[32:], m[16:]))
+
+
+def bip38_ref_decrypt(s, pw):
+    """-> (d, compressed) or None (not a non-EC-multiplied BIP38 string / wrong passphrase: address hash does not confirm)"""
+    raw = b58decode_check(s)
+    if raw is None or len(raw) != 39 or raw[:2] != b'\x01\x42' or raw[2] not in (0xc0, 0xe0):
+        return None
+    comp = raw[2] == 0xe0
+    k = _bip38_kdf(pw, raw[3:7])
+    d = int.from_bytes(aes_decrypt_block(k[32:], raw[7:23]) + aes_decrypt_block(k[32:], raw[23:39]), 'big') ^ int.from_bytes(k[:32], 'big')
+    if not 1 <= d < N or _bip38_halves(d, comp, pw) != raw[3:7]:
+        return None
+    return d, comp
+
+
+# published vectors of BIP38 ("No compression, no EC multiply" test 1, "Compression, no EC multiply" tests 1 and 2)
+BIP38_SPEC_VECTORS = [
+    ('cbf4b9f70470856bb4f40f80b87edb90865997ffee6df315ab166d713af433a5', False, 'TestingOneTwoThree',
+     '6PRVWUbkzzsbcVac2qwfssoUJAN1Xhrg6bNk8J7Nzm5H7kxEbn2Nh2ZoGg'),
+    ('cbf4b9f70470856bb4f40f80b87edb90865997ffee6df315ab166d713af433a5', True, 'TestingOneTwoThree',
+     '6PYNKZ1EAgYgmQfmNVamxyXVWHzK5s6DGhwP4J5o44cvXdoY7sRzhtpUeo'),
+    ('09c2686880095b1a4c249ee3ac4eea8a014f11e6f986d0b5025ac1f39afbd9ae', True, 'Satoshi',
+     '6PYLtMnXvfG3oJde97zRyLYFZCYizPU5T3LwgdYJz1fRhh16bU7u6PPmY7'),
+]
+
+
+def bip38_corpus_build(path=CORPUS_BIP38):
+    """ONE-TIME generation of corpus/C04/bip38.json by the reference encryptor above (never by /repo); the reference
+    must reproduce the published vectors first.  Special key material: secrets whose last byte is 01 (the byte that
+    also serves as compression marker), first byte 00 / 01 / 80, leading zero bytes, 1, n-1, values around 2^248."""
+    import random
+    for hx_, comp, pw, s in BIP38_SPEC_VECTORS:
+        assert bip38_ref_encrypt(int(hx_, 16), comp, pw) == s, ('reference encryptor differs from BIP38 vector', s)
+        assert bip38_ref_decrypt(s, pw) == (int(hx_, 16), comp)
+    r = random.Random(38)
+    rs = [r.randrange(1, N) for _ in range(6)]
+    mat = [(257, 'both'), (0x0C28FCA386C7A227600B2FE50B7CAE11EC86D3BF1FBE471BE89827E19D72AA01, 'both'), (int('01' * 32, 16), 'c'),
+           (N - 0x40, 'both'), (1, 'both'), (N - 1, 'both'), ((1 << 248) + 1, 'c'), ((1 << 255) | 1, 'both'),
+           ((1 << 248) - 0xff, 'c'), (0x0100, 'c'), (0x010101, 'c'), (1 << 248, 'c'), ((1 << 248) - 1, 'u'),
+           ((rs[0] & ~0xff) | 1, 'c'), ((rs[1] & ~0xff) | 1, 'u'), (rs[2], 'c'), (rs[3], 'u'), (((rs[4] >> 128) & ~0xff) | 1, 'c'),
+           ((rs[5] & ~0xffff) | 0x0101, 'c'), (0x80 << 248 | 0x0100, 'u'), (2, 'c'), (N - 2, 'c')]
+    pws = ['pw', 'TestingOneTwoThree', 'correct horse battery', 'pässwörd']
+    rows = [dict(secret=h, compressed=c, password=p, encrypted=s, source='BIP38 test vector') for h, c, p, s in BIP38_SPEC_VECTORS]
+    for d, which in mat:
+        for comp in ((True, False) if which == 'both' else (which == 'c',)):
+            pw = r.choice(pws)
+            s = bip38_ref_encrypt(d, comp, pw)
+            assert bip38_ref_decrypt(s, pw) == (d, comp)
+            rows.append(dict(secret='%064x' % d, compressed=comp, password=pw, encrypted=s, source='harness reference encryptor'))
+    os.makedirs(os.path.dirname(path), exist_ok=True)
+    with open(path, 'w') as f:
+        json.dump(dict(note='BIP38 (non-EC-multiplied, bitcoin mainnet) strings of special private-key material; generated once by '
+                            'bip38_corpus_build in harness/props/c04.py (hashlib.scrypt + FIPS-197 AES), frozen; never regenerated from /repo',
+                       rows=rows), f, indent=1, ensure_ascii=True)
+        f.write('\n')
+    return hashlib.sha256(open(path, 'rb').read()).hexdigest()
+
+
+def _load_bip38():
+    if os.environ.get('C04_BIP38_BUILD'):
+        return []                    # only while bip38_corpus_build() writes the file for the first time
+    raw = open(CORPUS_BIP38, 'rb').read()
+    if hashlib.sha256(raw).hexdigest() != CORPUS_BIP38_SHA256:
+        raise RuntimeError('corpus/C04/bip38.json differs from the frozen copy (sha256)')
+    return json.loads(raw)['rows']
+
+
+BIP38_ROWS = _load_bip38()
+BIP38_BY_STRING = {r['encrypted']: (int(r['secret'], 16), r['compressed'], r['password']) for r in BIP38_ROWS}
+_bip38_checked = {}
+
+
+def bip38_lookup(s, pw):
+    """(d, compressed) of a BIP38 string under this passphrase: the frozen corpus row when there is one (one row per
+    process is re-derived with the reference decryptor, ~0.5 s of scrypt), the reference decryptor otherwise"""
+    row = BIP38_BY_STRING.get(s)
+    if row is None or row[2] != pw:
+        if (s, pw) not in _bip38_checked:
+            _bip38_checked[(s, pw)] = bip38_ref_decrypt(s, pw)
+        return _bip38_checked[(s, pw)]
+    if not _bip38_checked:
+        _bip38_checked[(s, pw)] = bip38_ref_decrypt(s, pw)
+        if _bip38_checked[(s, pw)] != row[:2]:
+            raise RuntimeError('corpus/C04/bip38.json: row %s does not decrypt to its secret with the reference decryptor' % s)
+    return row[:2]
+
+
+def route_expect(t):
+    """route <entry> <kind> <string> <cp> <net> <pwhex>: what the text names -> ('none',) | ('refuse', d) | ('key', d, compressed)"""
+    entry, kind, s, cp, net, pwhex = t[1:]
+    if net not in SN.REFERENCE:
+        return ('none',)
+    if kind == 'wif':
+        w = wif_decode(s)
+        if w is None or w[0] != SN.wif_prefix(net):
+            return ('none',)
+        d, comp = w[1], w[2]
+    elif kind == 'bip38':
+        if net != 'bitcoin':
+            return ('none',)         # the address inside the salt is the mainnet P2PKH address in the specification
+        w = bip38_lookup(s, unhx(pwhex).decode('utf-8'))
+        if w is None:
+            return ('none',)
+        d, comp = w
+    else:
+        return ('none',)
+    return ('key', d, comp) if 1 <= d < N else ('refuse', d)
+
+
+def route_verdict(t, out):
+    entry, kind, s, cp, net, pwhex = t[1:]
+    e = route_expect(t)
+    if e[0] == 'none':
+        return None
+    if e[0] == 'refuse':
+        return None if out == 'ERR' else 'the %s text carries the scalar %d outside [1, n-1] but %s(...) answered %s' % (kind, e[1], entry, out[:90])
+    d, comp = e[1], e[2]
+    pt = ec_mul(d)
+    pub = ser_c(pt) if comp else ser_u(pt)
+    p2pkh = std_address(net, 'p2pkh', 'base58', pub, SN.REFERENCE)
+    o = out.split(' ')
+    head = ['OK', '1', str(d), pub.hex(), ser_c(pt).hex(), ser_u(pt).hex(), str(pt[0]), str(pt[1])]
+    if o[:8] != head or len(o) != 10:
+        return 'valid %s%s private key %064x via %s(<%s text>): answer %s..., expected %s...' % (
+            'compressed ' if comp else 'uncompressed ', kind, d, entry, kind, out[:170], ' '.join(head)[:170])
+    # o[8]: address() with no argument, o[9]: address(script_type='p2pkh', encoding='base58') on the same object
+    if entry == 'Key' or (entry == 'HDKey' and kind == 'bip38'):
+        dflt = p2pkh                 # Key default; HDKey is built with witness_type='legacy' on the BIP38 route (HDKeyD: default)
+    else:
+        dflt = std_address(net, 'p2wpkh', 'bech32', pub, SN.REFERENCE) if comp else None      # HDKey default: native segwit
+    if dflt is not None and o[8] != dflt:
+        return '%s(<%s of %064x>).address() is %s, the standard encoding is %s' % (entry, kind, d, o[8][:90], dflt)
+    if o[9] != p2pkh:
+        return '%s(<%s of %064x>).address(p2pkh, base58) is %s, the standard encoding is %s' % (entry, kind, d, o[9][:90], p2pkh)
+    return None
 
 
 # ---------------------------------------------------------------- what a request denotes (from the request alone)
@@ -595,6 +888,8 @@ def prop_check(c, out):
         return None if out == exp else 'Key.hash160 = %s, RIPEMD160(SHA256(public key)) = %s' % (out[:60], exp)
     if t[0] == 'sess':
         return sess_verdict(t, out, SN.REFERENCE)
+    if t[0] == 'route':
+        return route_verdict(t, out)
     if t[0] == 'addrx' and t[1] == 'P':
         return parse_verdict(t, out)
     if t[0] in ('addr', 'address', 'stdaddr', 'addrx'):
@@ -635,6 +930,8 @@ def _cls(c):
         kw = kw_of(t[4])
         if kw.get('st') == 'p2tr' and kw.get('wt') == 'taproot' and kw.get('witver', '0') == '0' and kw.get('hd') == '1':
             return 'p2tr_explicit_taproot_witver0'
+    if t[0] == 'route' and t[1] == 'HDKeyD' and t[2] == 'bip38':
+        return 'hdkey_bip38_default_witness_refused'
     if t[0] == 'sess':
         seen = False
         for step in t[6:]:
@@ -667,7 +964,7 @@ def _documented_deviation(c, io):
     return kr == 'exp' and kf == 'exp' and vr[1] != vf[1] and io == vf[1]
 
 
-PROPOSED_CLASSES = ('p2tr_explicit_taproot_witver0', 'address_prefix_arg_reuses_cached_object')
+PROPOSED_CLASSES = ('p2tr_explicit_taproot_witver0', 'address_prefix_arg_reuses_cached_object', 'hdkey_bip38_default_witness_refused')
 KNOWN_CLASSES = {
     'hex128_wide_secret': lambda c, io, mo: _cls(c) == 'hex128_wide_secret',
     'nonstrict_tolerated': lambda c, io, mo: _cls(c) == 'nonstrict_tolerated',
@@ -675,6 +972,7 @@ KNOWN_CLASSES = {
     'hash_ascii_hex': lambda c, io, mo: _cls(c) == 'hash_ascii_hex',
     'p2tr_explicit_taproot_witver0': lambda c, io, mo: _cls(c) == 'p2tr_explicit_taproot_witver0',
     'address_prefix_arg_reuses_cached_object': lambda c, io, mo: _cls(c) == 'address_prefix_arg_reuses_cached_object',
+    'hdkey_bip38_default_witness_refused': lambda c, io, mo: _cls(c) == 'hdkey_bip38_default_witness_refused' and io == 'ERR',
     'regtest_mainnet_version_bytes': lambda c, io, mo: _cls(c) is None and _documented_deviation(c, io),
 }
 
@@ -768,6 +1066,54 @@ def gen_cases(rng, tier):
         for fmt, arg in (fmts if d in decs else rng.sample(fmts, 2)):
             cs.append(Case('import_private', 'import %s %s %s %s 1 %s' % (rng.choice(['Key', 'HDKey']) if not (fmt == 'bytes' and len(arg) == 128) else 'Key',
                                                                        fmt, arg, rng.choice('10'), rng.choice(nets_))))
+    # ---- SPECIAL KEY MATERIAL on every import route: secrets whose last byte is 01 (the byte that doubles as the
+    #      compression marker of the 33-byte / WIF forms), last bytes 0101 / 0100, first byte 00 / 01 / 80, leading zero
+    #      bytes, 1, n-1, n-0x40 (= ..4101), values around 2^248; every binary / hexadecimal / integer format (model +
+    #      oracle), WIF compressed / uncompressed on several networks and BIP38 compressed / uncompressed (oracle)
+    def force01(v):
+        return (v & ~0xff) | 1
+
+    special = [1, 2, 0x0100, 0x0101, 0x010101, 0x01000001, N - 1, N - 2, N - 0x40, N - 0x4040,
+               1 << 248, (1 << 248) - 1, (1 << 248) + 1, (1 << 248) - 0xff, (1 << 255) | 1, 1 << 255, (0x80 << 248) | 0x0100,
+               int('01' * 32, 16), 0x0C28FCA386C7A227600B2FE50B7CAE11EC86D3BF1FBE471BE89827E19D72AA01, (1 << 240) | 1, (1 << 128) | 0x0101]
+    for _ in range(40 if big else 6):
+        v = rng.randrange(1, N)
+        special += [force01(v), force01(v >> (8 * rng.randrange(1, 20))), (v & ((1 << 248) - 1)) | (rng.choice([0x80, 0x01, 0x02, 0x03, 0x04]) << 248) | 1]
+    special = ok(special)
+    for d in special:
+        for fmt, arg in scalar_formats(d):
+            import_cases(cs, fmt, arg, rng, nets_, kind='special_import')
+    wnets = [n for n in NETS if not any(SN.deviates(n, f) for f in ('prefix_wif', 'prefix_address', 'prefix_address_p2sh', 'prefix_bech32'))]
+    pwx = lambda pw: pw.encode('utf-8').hex()
+    for d in special + edge + rnd[:(300 if big else 20)]:
+        for comp in (True, False):
+            for net in (['bitcoin'] + rng.sample(wnets, len(wnets) if big and d in special else 1)):
+                for entry in ('Key', 'HDKey'):
+                    cs.append(Case('route_wif', 'route %s wif %s %s %s -' % (entry, wif_encode(d, comp, SN.wif_prefix(net)), rng.choice('10'), net)))
+    for d in (0, N, N + 1, (1 << 256) - 1, 2 * N if 2 * N < 1 << 256 else N + 2, (1 << 256) - 0xff):
+        for comp in (True, False):
+            for entry in ('Key', 'HDKey'):
+                cs.append(Case('route_wif_refused', 'route %s wif %s 1 bitcoin -' % (entry, wif_encode(d, comp, SN.wif_prefix('bitcoin')))))
+    # BIP38: the frozen corpus (scrypt: ~0.5 s per import); quick tier: 5 compressed rows whose secret ends in 01 + 4 others
+    rows01 = [r for r in BIP38_ROWS if r['compressed'] and r['secret'].endswith('01')]
+    rest = [r for r in BIP38_ROWS if r not in rows01]
+    picked = BIP38_ROWS if big else rng.sample(rows01, 5) + rng.sample(rest, 4)
+    for i, r in enumerate(picked):
+        cs.append(Case('route_bip38', 'route Key bip38 %s %s bitcoin %s' % (r['encrypted'], rng.choice('10'), pwx(r['password']))))
+        if big or i % 3 == 0:
+            cs.append(Case('route_bip38', 'route HDKey bip38 %s %s bitcoin %s' % (r['encrypted'], rng.choice('10'), pwx(r['password']))))
+        if big or i in (0, 5):
+            # HDKey with its default witness type (proposed known class: every specification-conformant BIP38 text is refused)
+            cs.append(Case('route_bip38', 'route HDKeyD bip38 %s %s bitcoin %s' % (r['encrypted'], rng.choice('10'), pwx(r['password']))))
+    # addresses and key hashes of the special material through every binary / hexadecimal / integer format
+    for d in special:
+        for fmt, arg in scalar_formats(d):
+            if fmt == 'hex' and len(arg) == 128:
+                continue
+            cs.append(Case('special_addr', 'addr %s %s %s %s %s %s %s %s' % (
+                rng.choice(['Key', 'HDKey']), fmt, arg, rng.choice('10'), rng.choice(nets_), rng.choice(['N', 'N', '1', '0']),
+                rng.choice(STS + ['N']), rng.choice(ENCS + ['N']))))
+            cs.append(Case('special_addr', 'keyhash %s %s %s %s' % (rng.choice(['Key', 'HDKey']), fmt, arg, rng.choice('10'))))
     # wide hexadecimal form (known class): reduced modulo n by the implementation
     for _ in range(100 if big else 10):
         cs.append(Case('import_wide', 'import Key hex %s 1 1 bitcoin' % rng.randrange(N, 1 << 512).to_bytes(64, 'big').hex()))
